@@ -9,6 +9,8 @@ import Cctz.Spec.TableTame
 import Cctz.Proofs.TcSeg
 import Cctz.Proofs.TcSearch
 import Cctz.Proofs.TcMake
+import Cctz.Proofs.TcShift
+import Cctz.Proofs.TcWitness
 import Cctz.Proofs.TableLookup
 import Cctz.Proofs.TlShift
 
@@ -20,6 +22,10 @@ open Cctz Cctz.Tz Cctz.Spec
 theorem clamp64_of_in {t : Int} (h : inI64 t) : clamp64 t = t := by
   unfold inI64 at h; unfold clamp64
   rw [if_neg (by omega), if_neg (by omega)]
+
+theorem clamp64_le (t : Int) : clamp64 t ≤ i64max := by
+  unfold clamp64 i64min i64max
+  split <;> (try split) <;> omega
 
 theorem clamp64_mono {a b : Int} (h : a ≤ b) : clamp64 a ≤ clamp64 b := by
   unfold clamp64 i64min i64max
